@@ -291,20 +291,32 @@ func (g *Gen) heapSym(h *Heap, name string) string {
 				ps = append(ps, fmt.Sprintf("(x%d %s)", i, a))
 				as = append(as, fmt.Sprintf("x%d", i))
 			}
-			body := ""
-			for i := len(h.base.parents) - 1; i >= 0; i-- {
-				p := h.base.parents[i]
-				app := g.heapSym(p.h, name)
-				if len(as) > 0 {
-					app = "(" + app + " " + strings.Join(as, " ") + ")"
+			if len(as) == 0 {
+				body := ""
+				for i := len(h.base.parents) - 1; i >= 0; i-- {
+					p := h.base.parents[i]
+					app := g.heapSym(p.h, name)
+					if body == "" {
+						body = app
+					} else {
+						body = ite(p.guard, app, body)
+					}
 				}
-				if body == "" {
-					body = app
-				} else {
-					body = ite(p.guard, app, body)
+				g.emit(fmt.Sprintf("(define-fun %s (%s) %s %s)", s, strings.Join(ps, " "), ret, body))
+			} else {
+				// an uninterpreted symbol with one guarded defining equation per incoming edge, triggered on its own
+				// applications (a define-fun with an ite body would be inlined into every pattern that mentions it)
+				var eqs []string
+				app := "(" + s + " " + strings.Join(as, " ") + ")"
+				for _, p := range h.base.parents {
+					papp := "(" + g.heapSym(p.h, name) + " " + strings.Join(as, " ") + ")"
+					eqs = append(eqs, fmt.Sprintf("(assert (=> %s (forall (%s) (! (= %s %s) :pattern (%s)))))", p.guard, strings.Join(ps, " "), app, papp, app))
+				}
+				g.emit(fmt.Sprintf("(declare-fun %s %s)", s, sig))
+				for _, e := range eqs {
+					g.emit(e)
 				}
 			}
-			g.emit(fmt.Sprintf("(define-fun %s (%s) %s %s)", s, strings.Join(ps, " "), ret, body))
 		}
 		g.baseSyms[key] = s
 		return s
